@@ -133,8 +133,8 @@ PROPS = {
                  "thorough": [fam("call", 60000, 0, "hopeless"), fam("call", 40000, 0, "general")]},
     },
     "C03": {
-        "claim": "(theorems pending) Exact matches win: with an exactly matching supplied value for every parameter no converter runs and each parameter receives that value, whatever distractors are supplied. Tied to the code by trace conformance on the exact+distractors family (5 repetitions per scenario for tie-breaking) and the predicate on real traces.",
-        "note": "", "theorems": [], "facts": {"r5SkipSame": "true", "r6NameTest": "true", "publishAfterUpdate": "true", "trackReaching": "true", "takeValuedNamed": "true", "memoCopy": "true"},
+        "claim": "Theorems: exact_wins_named (any oracle) and exact_wins (every legal Dijkstra oracle; uses C18.dist_exact and the weighted edge characterisation regenerated from graph.go): with an exactly matching supplied value for every parameter only the target executes and each parameter receives its exact value. Exact matches win: with an exactly matching supplied value for every parameter no converter runs and each parameter receives that value, whatever distractors are supplied. Tied to the code by trace conformance on the exact+distractors family (5 repetitions per scenario for tie-breaking) and the predicate on real traces.",
+        "note": "", "theorems": ["ArgMapper.C03.exact_wins_named", "ArgMapper.C03.exact_wins", "ArgMapper.C03.sameInputs_of_consistent", "ArgMapper.C03.namedOK_of_build", "ArgMapper.C03.builderOK_of_build", "ArgMapper.C03.counterexample_duplicate_key", "ArgMapper.C03.counterexample_same_key", "ArgMapper.C03.counterexample_typed_key"], "facts": {"r5SkipSame": "true", "r6NameTest": "true", "publishAfterUpdate": "true", "trackReaching": "true", "takeValuedNamed": "true", "memoCopy": "true"},
         "rule": "call: any scenario of the family (the target always executes).",
         "runs": {"quick": [fam("call", 500, 0, "exact"), fam("call", 200, 0, "general")],
                  "thorough": [fam("call", 100000, 0, "exact"), fam("call", 20000, 0, "general")]},
